@@ -15,7 +15,7 @@
 From Coq Require Import ZArith List Bool.
 From Batchie Require Import Lib.Sexp Generated.Consts Model.Encode Model.Screen Model.Reveal Model.Holdout
   Proofs.C03Base Proofs.C03Screen Proofs.C12Reveal Proofs.C12Counters Proofs.C03Frozen Proofs.C12Defined Proofs.C03Witness Proofs.C12Examples
-  Generated.SrcReveal Proofs.C12Source.
+  Generated.SrcReveal Proofs.C12Source_Base Proofs.C12Source_Reveal Proofs.C12Source_Variant Proofs.C12Source_SetObserved Proofs.C12Source.
 Import ListNotations.
 Open Scope Z_scope.
 
